@@ -167,7 +167,9 @@ func MsgFromProto(msg *kcons.Message) (Message, error) {
 		}
 
 		pbBits := new(common.BitArray)
-		pbBits.FromProto(msg.NewValidBlock.BlockParts)
+		if err := pbBits.FromProto(msg.NewValidBlock.BlockParts); err != nil {
+			return nil, fmt.Errorf("block parts to proto error: %w", err)
+		}
 
 		pb = &NewValidBlockMessage{
 			Height:           msg.NewValidBlock.Height,
@@ -187,7 +189,9 @@ func MsgFromProto(msg *kcons.Message) (Message, error) {
 		}
 	case *kcons.Message_ProposalPol:
 		pbBits := new(common.BitArray)
-		pbBits.FromProto(&msg.ProposalPol.ProposalPol)
+		if err := pbBits.FromProto(&msg.ProposalPol.ProposalPol); err != nil {
+			return nil, fmt.Errorf("proposal POL to proto error: %w", err)
+		}
 		pb = &ProposalPOLMessage{
 			Height:           msg.ProposalPol.Height,
 			ProposalPOLRound: msg.ProposalPol.ProposalPolRound,
@@ -236,7 +240,9 @@ func MsgFromProto(msg *kcons.Message) (Message, error) {
 			return nil, fmt.Errorf("voteSetBits msg to proto error: %w", err)
 		}
 		bits := new(common.BitArray)
-		bits.FromProto(&msg.VoteSetBits.Votes)
+		if err := bits.FromProto(&msg.VoteSetBits.Votes); err != nil {
+			return nil, fmt.Errorf("votes to proto error: %w", err)
+		}
 
 		pb = &VoteSetBitsMessage{
 			Height:  msg.VoteSetBits.Height,
